@@ -137,6 +137,28 @@ Definition vopt (A : Type) (f : A -> list Qc) (o : option A) : val :=
 Definition vpanic (A : Type) (f : A -> list Qc) (o : option A) : val :=
   match o with Some a => vq (f a) | None => VPanic end.
 
+(* ---------- generic values: what a dispatcher instantiated at an arbitrary scalar type F returns ----------
+   The dispatch tables (Exec/RunCnn.v) are written once, parametric in the scalar type and its operations; the
+   correspondence check evaluates them at Qc (below), the symbolic tie (DESIGN section 11) states lemmas about them
+   at an arbitrary field. *)
+Inductive gval (F : Type) : Type :=
+| GQ (l : list F)
+| GNone
+| GPanic
+| GBool (b : bool)
+| GBad.
+Arguments GQ {F} l.  Arguments GNone {F}.  Arguments GPanic {F}.  Arguments GBool {F} b.  Arguments GBad {F}.
+
+Definition val_of_gval (g : gval Qc) : val :=
+  match g with GQ l => vq l | GNone => VNone | GPanic => VPanic | GBool b => VBool b | GBad => VBad end.
+Definition val_of_gvalZ (g : gval Z) : val :=
+  match g with GQ l => vz l | GNone => VNone | GPanic => VPanic | GBool b => VBool b | GBad => VBad end.
+(* a generic table, used at Qc *)
+Definition qtab (t : list (string * (list Qc -> gval Qc))) : list (string * (list Qc -> val)) :=
+  map (fun p => (fst p, fun l => val_of_gval (snd p l))) t.
+Definition ztab (t : list (string * (list Z -> gval Z))) : list (string * (list Z -> val)) :=
+  map (fun p => (fst p, fun l => val_of_gvalZ (snd p l))) t.
+
 Record case := mkCase { c_fn : string; c_in : list Q; c_orc : Orc; c_out : val }.
 
 Definition runner := string -> Orc -> list Qc -> val.
